@@ -340,16 +340,33 @@ def lax_cases(draw):
     return {"type": spec, "value": draw(vals), "options": {}, "entry": draw(st.sampled_from(["call", "schema", "return"])), "part": "lax"}
 
 
+@st.composite
+def collision_cases(draw):
+    """a sized set with an item type, fed members that are different before conversion and equal after it"""
+    a = draw(st.sampled_from([{"k": "leaf", "o": "int"}, {"k": "leaf", "o": "str"}, {"k": "leaf", "o": "float"}]))
+    n = draw(st.integers(1, 3))
+    cname = draw(st.sampled_from(["min_length", "min_length", "length", "max_length"]))
+    spec = {"k": "con", "o": draw(st.sampled_from(["set", "set", "list"])), "c": {cname: n}, "args": [a], "m": "annotate"}
+    if cname in ("length", "max_length") and draw(st.booleans()):
+        spec["lax"] = [cname]
+    pool = st.sampled_from([1, "1", {"t": "float", "v": "1.0"}, {"t": "float", "v": "1.5"}, True, " 1", 2, "2", {"t": "float", "v": "2.0"}, {"t": "bytes", "v": "31"}])
+    vals = draw(st.lists(pool, min_size=max(n - 1, 0), max_size=n + 2))
+    return {"type": spec, "value": {"t": draw(st.sampled_from(["list", "tuple"])), "v": vals}, "options": draw(OPTION_SETS),
+            "entry": draw(st.sampled_from(["call", "schema", "return", "param"]))}
+
+
 def case_strategy(thorough):
     data = dspec.decl_specs(rich=False, bases=("schema", "dataclass"), max_fields=3).map(lambda d: {"k": "data", "d": d})
-    ts = gen.type_specs(max_leaves=5 if thorough else 3, lax_ok=True, data=data)
-    ts = st.one_of(gen.leaf, gen.constrained(lax_ok=True), gen.constrained(lax_ok=True), gen.enum_t, gen.literal_t, ts, ts, ts, ts)
+    ts = gen.type_specs(max_leaves=5 if thorough else 3, lax_ok=True, data=data, with_args=True)
+    sized = gen.constrained(lax_ok=True, origins=["list", "set", "set"], with_args=True)
+    ts = st.one_of(gen.leaf, gen.constrained(lax_ok=True, with_args=True), gen.constrained(lax_ok=True), sized, gen.enum_t, gen.literal_t, ts, ts, ts, ts)
 
     def with_value(spec):
         vals = st.one_of(gen.conforming(spec), gen.conforming(spec), gen.conforming(spec), gen.hostile(max_leaves=6))
         return st.fixed_dictionaries({"type": st.just(spec), "value": vals, "options": OPTION_SETS,
                                       "entry": st.sampled_from(ENTRY_POOL)})
-    return st.one_of(ts.flatmap(with_value), ts.flatmap(with_value), lax_cases())
+    main = ts.flatmap(with_value)
+    return st.one_of(main, main, main, main, main, main, lax_cases(), lax_cases(), lax_cases(), collision_cases())
 
 
 def campaign(ctx):
